@@ -386,7 +386,8 @@ inline std::string gen_tail(Rng& r) {  // path?query#fragment
     if (r.chance(1, 4)) o += "/";
   }
   if (r.chance(1, 3)) {
-    static const char* const q[] = {"?", "?a=b", "?a=b&c=d", "?q=a b", "?\xc3\xa9", "?'\"<>", "?%zz", "??", "?#"};
+    static const char* const q[] = {"?", "?a=b", "?a=b&c=d", "?q=a b", "?\xc3\xa9", "?'\"<>", "?%zz", "??", "?#",
+                                    "?q='x'", "?q=rock'n'roll&lang='en'", "?'"};
     o += pick(r, q);
   }
   if (r.chance(1, 3)) {
@@ -424,7 +425,7 @@ inline std::string gen_port(Rng& r) {
 // userinfo built from chunks: any number of '@' and ':' in any order ("u@v:w@", ":@:", "a:b@c@")
 inline std::string gen_credentials(Rng& r) {
   static const char* const chunk[] = {"u", "v", "w", "user", "pass", "a b", "\xc3\xa9", "%40", "x%zz", "", "p:q", ";=", "[", "^", "|",
-                                      "\\", "us\\er", "/", "?", "#x"};
+                                      "\\", "us\\er", "/", "?", "#x", "65536", "123456", "99999", "80"};
   std::string o;
   int n = r.range(1, 4);
   for (int i = 0; i < n; i++) {
@@ -462,7 +463,9 @@ inline std::string gen_abs_url(Rng& r) {
 inline std::string gen_relative(Rng& r) {
   static const char* const rel[] = {"",     "../x",  "/abs", "//host/p", "?q",  "#f",   "x/y",   "\\\\x\\y",
                                     "C:/",  "./",    "..",   "/..//",    "#\xc3\xa9 \xc3\xa9", "?\xc3\xa9",
-                                    "//\xc3\xa9", "//1", "///", "/C|/x", "a:b", "http:rel", "https:/x", "  \t x"};
+                                    "//\xc3\xa9", "//1", "///", "/C|/x", "a:b", "http:rel", "https:/x", "  \t x",
+                                    // tab / newline between the two slashes: removed by preprocessing, so these open an authority
+                                    "/\t/", "/\n\\", "/\r/a b/c", "/\t/host:99999/", "/\t\n\r/[::1/", "/\t/ok.example/x", "\\\t/h"};
   if (r.chance(1, 3)) return gen_tail(r);
   if (r.chance(1, 5)) {
     static const char* const open2[] = {"//", "\\\\", "\\/", "/\\", "///", "\\\\\\", "/\\/"};
